@@ -521,9 +521,23 @@ pub fn dest_state(p: &Path) -> DestState {
     }
 }
 
+/// A directory on another filesystem than the scratch area (tmpfs <-> ext4).
+pub fn other_fs_dir(scratch: &Path) -> PathBuf {
+    let root = if scratch.starts_with("/dev/shm") { "/var/tmp" } else { "/dev/shm" };
+    let tag = crate::engine::hash_of(&scratch.to_string_lossy().to_string());
+    PathBuf::from(root).join(format!("cvh-x.{}", std::process::id())).join(format!("{tag:016x}"))
+}
+
 fn prep_dest(ctx: &Ctx, dest: Dest) -> PathBuf {
     let n = ctx.dest_n.get();
     ctx.dest_n.set(n + 1);
+    if dest == Dest::OtherFs {
+        let d = other_fs_dir(&ctx.scratch);
+        let _ = std::fs::create_dir_all(&d);
+        let p = d.join(format!("dest_{n}"));
+        let _ = std::fs::remove_file(&p);
+        return p;
+    }
     let p = ctx.scratch.join(format!("dest_{n}"));
     let _ = std::fs::remove_file(&p);
     if dest == Dest::Existing {
@@ -574,6 +588,10 @@ fn unit(r: cacache::Result<()>) -> Out {
 
 fn extract_result(r: cacache::Result<Option<u64>>, dest: &Path) -> Out {
     let st = dest_state(dest);
+    if dest.starts_with("/var/tmp/cvh-x.") || dest.starts_with("/dev/shm/cvh-x.") {
+        // destinations on the other filesystem are not kept
+        let _ = std::fs::remove_file(dest);
+    }
     match r {
         Ok(count) => Out::Extracted { count, dest: st },
         Err(e) => {
